@@ -27,7 +27,8 @@ type Case struct {
 	GRL      string          `json:"grl"`
 	RulesJS  json.RawMessage `json:"rules"`   // program AST for the monitor
 	Removed  []string        `json:"removed"` // rules removed from the library before instantiation
-	Variant  string          `json:"variant"` // fresh | reloaded | reloaded2 | second
+	Parts    []string        `json:"parts"`   // the same rules split over several resources (variant multi)
+	Variant  string          `json:"variant"` // fresh | reloaded | reloaded2 | second | multi
 	Calls    []CallCfg       `json:"calls"`   // calls made on the one instance, in order
 	Profile  string          `json:"profile"`
 	Listener int             `json:"listeners"` // number of listeners (0 = none: no trace but result checked)
@@ -144,7 +145,13 @@ func classify(err error, ctx context.Context) (class string, rule string) {
 func BuildInstance(c *Case) (*ast.KnowledgeBase, error) {
 	lib := ast.NewKnowledgeLibrary()
 	rb := builder.NewRuleBuilder(lib)
-	if err := rb.BuildRuleFromResource("kb", "1", pkg.NewBytesResource([]byte(c.GRL))); err != nil {
+	if c.Variant == "multi" && len(c.Parts) > 0 {
+		for _, part := range c.Parts {
+			if err := rb.BuildRuleFromResource("kb", "1", pkg.NewBytesResource([]byte(part))); err != nil {
+				return nil, fmt.Errorf("build: %w", err)
+			}
+		}
+	} else if err := rb.BuildRuleFromResource("kb", "1", pkg.NewBytesResource([]byte(c.GRL))); err != nil {
 		return nil, fmt.Errorf("build: %w", err)
 	}
 	for _, n := range c.Removed {
